@@ -359,6 +359,12 @@ impl<'a> Model<'a> {
         // Internal formulas are R1C1 and not anchored to a cell; we parse them
         // in the context of the *source* sheet (the parser already knows that
         // name) so that implicit references resolve to the source sheet index.
+        // They are stored in English: parse them with the default locale and
+        // language regardless of the active ones.
+        let locale = self.locale;
+        let language = self.language;
+        self.parser.set_locale(get_default_locale());
+        self.parser.set_language(get_default_language());
         self.parser.set_lexer_mode(LexerMode::R1C1);
         let cell_reference = CellReferenceRC {
             sheet: source_name.clone(),
@@ -373,6 +379,8 @@ impl<'a> Model<'a> {
         }
         new_worksheet.shared_formulas = shared_formulas;
         self.parser.set_lexer_mode(LexerMode::A1);
+        self.parser.set_locale(locale);
+        self.parser.set_language(language);
 
         // Insert the copy right after the source sheet.
         let new_index = source_index as usize + 1;
@@ -478,7 +486,13 @@ impl<'a> Model<'a> {
         let old_name = self.workbook.worksheet(sheet_index)?.get_name();
 
         // Parse all formulas with the old name
-        // All internal formulas are R1C1
+        // All internal formulas are R1C1 and, like the formulas of the defined names,
+        // stored in English: parse them with the default locale and language
+        // regardless of the active ones.
+        let locale = self.locale;
+        let language = self.language;
+        self.parser.set_locale(get_default_locale());
+        self.parser.set_language(get_default_language());
         self.parser.set_lexer_mode(LexerMode::R1C1);
 
         for worksheet in &mut self.workbook.worksheets {
@@ -511,7 +525,12 @@ impl<'a> Model<'a> {
         for defined_name in &mut self.workbook.defined_names {
             let mut t = self.parser.parse(&defined_name.formula, cell_reference);
             rename_sheet_in_node(&mut t, sheet_index, new_name);
-            let formula = to_localized_string(&t, cell_reference, self.locale, self.language);
+            let formula = to_localized_string(
+                &t,
+                cell_reference,
+                get_default_locale(),
+                get_default_language(),
+            );
             defined_names.push(DefinedName {
                 name: defined_name.name.clone(),
                 formula,
@@ -519,6 +538,8 @@ impl<'a> Model<'a> {
             });
         }
         self.workbook.defined_names = defined_names;
+        self.parser.set_locale(locale);
+        self.parser.set_language(language);
 
         // Update the name of the worksheet
         self.workbook.worksheet_mut(sheet_index)?.set_name(new_name);
